@@ -116,13 +116,17 @@ def run(ctx):
     ctx.exhaustive = True
 
     # rigidity of the pre-alignment
-    nal = 100 if ctx.thorough else 20
+    nal = 200 if ctx.thorough else 40
     for t in range(nal):
         n = int(rng.integers(4, 30))
         d = int(rng.integers(1, 4))
         A = rng.normal(size=(n, d)).astype(np.float32)
         B = rng.normal(size=(n, d)).astype(np.float32)
-        m = int(rng.integers(d + 1, n + 1))
+        if t % 3 == 0:      # exactly representable coordinates (singular cross-covariances are then exactly singular)
+            A = rng.integers(-4, 5, size=(n, d)).astype(np.float32)
+            B = rng.integers(-4, 5, size=(n, d)).astype(np.float32)
+        # any number of anchors, including fewer than the dimension (rank-deficient cross-covariance)
+        m = int(rng.integers(1, n + 1)) if t % 2 == 0 else int(rng.integers(1, d + 1))
         anchors = np.stack([rng.choice(n, m, replace=False), rng.choice(n, m, replace=False)])
         out = procrustes_align(A, B, anchors)
         from scipy.spatial.distance import pdist
